@@ -123,6 +123,7 @@ fn main() {
             println!("{}", v.iter().map(|x| x.to_string()).collect::<Vec<_>>().join(" "));
             0
         }
+        "c19race" => props::c19::race_main(args[2].parse().unwrap_or(1), args.get(3).and_then(|x| x.parse().ok()).unwrap_or(40_000)),
         "c19run" => props::c19::proc_main("c19run", &args[2]),
         "alone" => props::c19::proc_main("alone", &args[2]),
         "selftest" => {
